@@ -50,8 +50,9 @@ Definition cueFullS (cueDur : Z) : Z := ceilFl (PrimFloat.mul (Zfl cueDur) f_tho
 (** its exact twin *)
 Definition cueFullS_exact (cueDur : Z) : Z := (cueDur + 999) / 1000.
 
-(** one pass of the loop body; [None] = break *)
-Definition cue_at (segStart segDur utcStart cueDur utcS : Z) : option cue :=
+(** one pass of the loop body: [None] = break, [Some None] = continue (the cue of this second was
+    already over when the segment starts: skipped since 6f3327b), [Some (Some c)] = cue appended *)
+Definition cue_at (segStart segDur utcStart cueDur utcS : Z) : option (option cue) :=
   let diff := segStart - utcStart in
   let utcEndMS := utcStart + segDur in
   let cueStartMS := utcS * 1000 in
@@ -59,7 +60,8 @@ Definition cue_at (segStart segDur utcStart cueDur utcS : Z) : option cue :=
   let st := if cueStartMS <? utcStart then utcStart else cueStartMS in
   let en0 := cueStartMS + cueDur in
   let en := if utcEndMS <? en0 then utcEndMS else en0 in
-  Some {| c_start := st + diff; c_end := en + diff; c_utc := utcS |}.
+  if en <=? st then Some None else
+  Some (Some {| c_start := st + diff; c_end := en + diff; c_utc := utcS |}).
 
 (** for utcS := lo; utcS <= hi; utcS += step *)
 Fixpoint cue_loop (fuel : nat) (segStart segDur utcStart cueDur step hi utcS : Z) : list cue :=
@@ -69,22 +71,24 @@ Fixpoint cue_loop (fuel : nat) (segStart segDur utcStart cueDur step hi utcS : Z
     if utcS <=? hi then
       match cue_at segStart segDur utcStart cueDur utcS with
       | None => []
-      | Some c => c :: cue_loop k segStart segDur utcStart cueDur step hi (utcS + step)
+      | Some None => cue_loop k segStart segDur utcStart cueDur step hi (utcS + step)
+      | Some (Some c) => c :: cue_loop k segStart segDur utcStart cueDur step hi (utcS + step)
       end
     else []
   end.
 
-(** calcCueItvls(segStart, segDur, utcStart, cueDur). All arguments are Go ints. The loop runs
-    (hi - lo)/step + 1 times at most; a non-positive step (cueDur <= 0) means cueFullMS <= 0: for 0
-    the first division panics, for a negative one the loop would not terminate or misbehave
-    (cueDur <= 0 is refused with 400 by verifyAndFillConfig since 860f338). *)
+(** calcCueItvls(segStart, segDur, utcStart, cueDur). All arguments are Go ints. Since 7bc345a the loop
+    variable is a UTC second: it starts at the multiple of cueFullS seconds at or before the start and
+    runs up to the second of the segment end in steps of cueFullS. The loop runs (hi - lo)/step + 1
+    times at most; a non-positive step (cueDur <= 0) means cueFullMS <= 0: for 0 the first division
+    panics (cueDur <= 0 is refused with 400 by verifyAndFillConfig since 860f338). *)
 Definition calcCueItvls (segStart segDur utcStart cueDur : Z) : res (list cue) :=
   let fullS := cueFullS cueDur in
   let fullMS := fullS * 1000 in
   if fullMS =? 0 then Panic "app.calcCueItvls:integer divide by zero" else
   if fullS <? 0 then Err "calcCueItvls: negative step (not modelled)" else
-  let lo := Z.quot utcStart fullMS in
-  let hi := Z.quot (utcStart + segDur) fullMS in
+  let lo := Z.quot utcStart fullMS * fullS in
+  let hi := Z.quot (utcStart + segDur) 1000 in
   Ok (cue_loop (Z.to_nat (hi - lo + 1)) segStart segDur utcStart cueDur fullS hi lo).
 
 (** ** msToTTMLTime: hours, minutes, seconds, milliseconds as printed by "%02d:%02d:%02d.%03d" *)
